@@ -273,7 +273,7 @@ def root_cases(family: str) -> list[dict]:
 
     def case(xml: str, what: str, prefix_dependent: bool) -> None:
         out.append({'family': family, 'style': 'prefix', 'xml': xml, 'faults': ['ROOT ' + what],
-                    'prefix_dependent': prefix_dependent, 'rdims': [what]})
+                    'prefix_dependent': prefix_dependent or family == 'Q', 'rdims': [what]})
 
     def elem(name: str, attrs: str, content: str) -> str:
         return '<%s %s%s>%s</%s>' % (name, decls, attrs, content, name) if content else '<%s %s%s/>' % (name, decls, attrs)
